@@ -25,9 +25,10 @@ func init() {
 			"Added after blind round 7: the sweeper's idle criterion cross-listed from C17 (the service runs the sweep at every BeginTransaction RPC). " +
 			"Added after blind round 8: a handler that fills a repeated field in a loop allocates each element inside the loop; handlers write no fields of the server object. " +
 			"Added after blind round 9: a mutating handler reports success only behind the embedded call of its row; the limit facts are seen through a predicate helper. " +
-			"Added after blind round 10: FilteredIterator.Next is steered only by the wrapped iterator and the filter (no budget of skipped keys); the reviewed users of the raw transaction lock are listed here too.",
+			"Added after blind round 10: FilteredIterator.Next is steered only by the wrapped iterator and the filter (no budget of skipped keys); the reviewed users of the raw transaction lock are listed here too. " +
+			"Added after blind round 11: the default registry limits are also judged for a unit slip (a bare number where a time.Duration is expected).",
 		NotDecided: "equality of responses with the embedded API for all request sequences and data sets; gRPC transport behaviour; connection-bound transaction cleanup; GetStats contents.",
-		Rules:      []func(*Ctx, *Reporter){ruleC19Delegation, ruleC19Limits, ruleC19Rejection, ruleC19Handles, ruleC19ScanOptions, ruleScanConsumers, ruleEmptyNotDeleted, ruleFilter, ruleTxOrphanRemoval, subRules(ruleTxStale, "cleanup-criteria"), ruleHandlersAppendFreshElements, ruleHandlersKeepNoState, ruleServiceSuccessOnlyAfterEngine, ruleFilteredNextScansToMatch, subRules(ruleTxLockWriters, "txlock-who")},
+		Rules:      []func(*Ctx, *Reporter){ruleC19Delegation, ruleC19Limits, ruleC19Rejection, ruleC19Handles, ruleC19ScanOptions, ruleScanConsumers, ruleEmptyNotDeleted, ruleFilter, ruleTxOrphanRemoval, subRules(ruleTxStale, "cleanup-criteria"), ruleHandlersAppendFreshElements, ruleHandlersKeepNoState, ruleServiceSuccessOnlyAfterEngine, ruleFilteredNextScansToMatch, subRules(ruleTxLockWriters, "txlock-who"), ruleDefaultRegistryLimits},
 	})
 }
 
